@@ -1581,6 +1581,8 @@ class Frame(object):
         elif fname == 'dict' and len(args) == 1 and isinstance(args[0], ListV) and \
                 all(isinstance(e, ListV) and len(e.elems) == 2 for e in args[0].elems):
             pairs = [(e.elems[0], e.elems[1]) for e in args[0].elems]
+        elif fname == 'dict' and len(args) == 1 and getattr(args[0], 'zipped', None) is not None:
+            pairs = list(args[0].zipped)
         if pairs is None or not all(isinstance(k, Const) for k, _ in pairs):
             return None
         return DictV('%s(%s)' % (fname, ', '.join(render(a) for a in args)), pairs)
@@ -1673,6 +1675,17 @@ class Frame(object):
         return self._comp(node, st, '()')
 
     def ev_DictComp(self, node, st):
+        if len(node.generators) == 1 and not node.generators[0].ifs:
+            # {k: v for k, v in <known pairs>}: the table itself
+            itv = self.ev(node.generators[0].iter, st, quiet=True)
+            if isinstance(itv, ListV) and itv.elems and len(itv.elems) <= 64 and not any(isinstance(e, EachV) for e in itv.elems):
+                pairs = []
+                for e in itv.elems:
+                    s2 = st.fork()
+                    self.assign(node.generators[0].target, e, s2, node)
+                    pairs.append((self.ev(node.key, s2, quiet=True), self.ev(node.value, s2, quiet=True)))
+                if all(isinstance(k, Const) for k, _ in pairs):
+                    return DictV('{%s}' % ', '.join('%s: %s' % (render(k), render(v)) for k, v in pairs), pairs)
         return self._comp(node, st, '{}')
 
     def ev_IfExp(self, node, st):
@@ -2247,6 +2260,12 @@ class Frame(object):
             if n in ('iter', 'list', 'tuple') and len(args) == 1 and isinstance(args[0], EachV) and not kwargs:
                 record(n)
                 return args[0]
+            if n == 'zip' and len(args) == 2 and not kwargs and all(isinstance(a, ListV) for a in args) and \
+                    len(args[0].elems) == len(args[1].elems) and n not in st.env:
+                record(n)
+                zv = ListV([ListV([a, b], 'tuple') for a, b in zip(args[0].elems, args[1].elems)], 'list')
+                zv.zipped = list(zip(args[0].elems, args[1].elems))
+                return zv
             if n in ('list', 'tuple') and len(args) == 1 and isinstance(args[0], ListV) and not kwargs and n not in st.env:
                 record(n)
                 return ListV(list(args[0].elems), n)
